@@ -174,9 +174,9 @@ Print Assumptions C09_handover_ring_is_file.
 
 (* non-vacuity: three shards, a rotation after the second record, interleaved; everybody has left PushLock *)
 Example C09_handover_schedule_runs :
-  let t k p rot := mkA k 7 p rot in
-  let sched := [t 0 1 false; t 1 2 false; t 0 1 false; t 0 1 false; t 1 2 true; t 0 1 false; t 1 2 true; t 2 3 false; t 0 1 false; t 1 2 true;
-                t 0 1 false; t 1 2 true; t 2 3 false; t 1 2 true; t 2 3 false; t 1 2 true; t 2 3 false; t 2 3 false; t 2 3 false; t 2 3 false] in
+  let sched := [AR 0 1 false; AR 1 2 false; AR 0 1 false; AR 0 1 false; AR 1 2 true; AR 0 1 false; AR 1 2 true; AR 2 3 false; AR 0 1 false;
+                AR 1 2 true; AR 0 1 false; AR 1 2 true; AR 2 3 false; AR 1 2 true; AR 2 3 false; AR 1 2 true; AR 2 3 false; AR 2 3 false;
+                AR 2 3 false; AR 2 3 false; AR 1 2 false; AR 2 3 false; AR 2 3 false; AR 2 3 false; AR 2 3 false] in
   let s := hrun true hinit sched in
   quiescent s /\ map rid_of (hring s) = [mkId 1 1 7; mkId 1 2 7; mkId 2 1 7] /\ map rpay (hfile s) = [1; 2; 3]%N.
 Proof. vm_compute. repeat split. Qed.
@@ -197,8 +197,7 @@ Goal True. idtac "ASSUMPTIONS-OF C09_handover_full_transfer_gapfree". Abort.
 Print Assumptions C09_handover_full_transfer_gapfree.
 
 Example C09_handover_full_transfer_reachable :
-  let t k p := mkA k 7 p false in
-  let before := [t 0 1; t 0 1; t 0 1; t 0 1; t 0 1; t 0 1; t 1 2; t 1 2; t 1 2; t 1 2; t 1 2] in
+  let before := [A 0 1; A 0 1; A 0 1; A 0 1; A 0 1; A 0 1; A 1 2; A 1 2; A 1 2; A 1 2; A 1 2] in
   exists R0 h, hring (hrun true hinit before) = R0 ++ [h] /\ rpay h = 2%N /\ map rpay R0 = [1%N].
 Proof. exists [mkRec (mkId 1 1 7) 1], (mkRec (mkId 1 2 7) 2). vm_compute. repeat split. Qed.
 
